@@ -128,6 +128,9 @@ func checkC07(c *Ctx) {
 	// siblings derived and used after one of the sink's writes failed, and while reflected context fields overlap
 	jeScenarios(c, "C07")
 	// concurrent first use of a lazy logger: evaluated exactly once
+	for _, f := range replayAbortedWrite() {
+		c.Violation(f.Key, f.What, map[string]interface{}{"scenario": "aborted-write-then-sibling"})
+	}
 	runLazyOnce(c, "C07/", func(k string) bool { return k == "lazy/evaluated-twice" || k == "lazy/context" || k == "lazy/entry-missing" })
 	c.Set("histories_replayed", n)
 	c.Set("exhaustive", false)
@@ -243,6 +246,10 @@ func replayLoggerTree(b ltBeh, kind string, seed int64) (finds []Finding) {
 			fs = append(fs, zap.Object(fmt.Sprintf("o%d", c), ltNsObj{}))
 		}
 		for i := 0; i < n; i++ {
+			if rng.Intn(3) == 0 {
+				// no-op members in front of real ones: they contribute nothing and disturb nothing
+				fs = append(fs, []zap.Field{zap.Skip(), zap.Error(nil), zap.NamedError("cause", nil)}[rng.Intn(3)])
+			}
 			fs = append(fs, zap.Stringer(fmt.Sprintf("f%d_%d", c, i+1), ltStringer{cell}))
 		}
 		if rng.Intn(4) == 0 {
@@ -362,6 +369,9 @@ func replayLoggerTree(b ltBeh, kind string, seed int64) (finds []Finding) {
 		for _, e := range o.All() {
 			g := ltGot{name: e.LoggerName}
 			for _, f := range e.Context {
+				if f.Type == zapcore.SkipType {
+					continue // the observer keeps no-op fields as it was given them; they contribute nothing
+				}
 				g.keys = append(g.keys, f.Key)
 			}
 			gs = append(gs, g)
@@ -488,4 +498,74 @@ func ltParseLine(line []byte, console bool) (ltGot, error) {
 		return g, err
 	}
 	return g, nil
+}
+
+// ---- a logging call aborted by a panic in user code, recovered by the application, then other loggers log ----
+
+type ltPanicObj struct{}
+
+func (ltPanicObj) MarshalLogObject(enc zapcore.ObjectEncoder) error {
+	enc.AddString("partial", "x")
+	panic("marshaler bug")
+}
+
+type ltPanicSink struct{ jeSink }
+
+func (s *ltPanicSink) Write(p []byte) (int, error) { panic("sink bug") }
+
+// replayAbortedWrite: whatever an aborted call leaves behind, the next entries of other loggers go to their own
+// cores only, once, with their own context.
+func replayAbortedWrite() (finds []Finding) {
+	add := func(key, f string, a ...interface{}) {
+		if len(finds) < 4 {
+			finds = append(finds, Finding{Key: key, What: fmt.Sprintf(f, a...)})
+		}
+	}
+	enc := func() zapcore.Encoder { return zapcore.NewJSONEncoder(zapcore.EncoderConfig{MessageKey: "msg", SkipLineEnding: true}) }
+	for variant := 0; variant < 4; variant++ {
+		sa1, sa2, sb := &jeSink{}, &jeSink{}, &jeSink{}
+		var coreA zapcore.Core
+		switch variant {
+		case 0:
+			coreA = zapcore.NewCore(enc(), sa1, zapcore.DebugLevel)
+		case 1:
+			coreA = zapcore.NewTee(zapcore.NewCore(enc(), sa1, zapcore.DebugLevel), zapcore.NewCore(enc(), sa2, zapcore.DebugLevel))
+		case 2:
+			coreA = zapcore.NewTee(zapcore.NewCore(enc(), &ltPanicSink{}, zapcore.DebugLevel), zapcore.NewCore(enc(), sa2, zapcore.DebugLevel))
+		default:
+			coreA = zapcore.NewTee(zapcore.NewCore(enc(), sa1, zapcore.DebugLevel), zapcore.NewCore(enc(), &ltPanicSink{}, zapcore.DebugLevel), zapcore.NewCore(enc(), sa2, zapcore.DebugLevel))
+		}
+		a := zap.New(coreA).With(zap.String("request", "A"), zap.String("user", "alice"))
+		b := zap.New(zapcore.NewCore(enc(), sb, zapcore.DebugLevel)).With(zap.String("request", "B"))
+		for round := 0; round < 3; round++ {
+			func() {
+				defer func() { recover() }() // the application's recovery middleware
+				if variant < 2 {
+					a.Info("boom", zap.Object("o", ltPanicObj{}), zap.Int("after", 1))
+				} else {
+					a.Info("boom", zap.Int("after", 1))
+				}
+			}()
+			sb.writes = nil
+			na1, na2 := len(sa1.writes), len(sa2.writes)
+			b.Info("hello", zap.Int("round", round))
+			b.With(zap.Int("c", 1)).Warn("hello again")
+			want := []string{fmt.Sprintf(`{"msg":"hello","request":"B","round":%d}`, round), `{"msg":"hello again","request":"B","c":1}`}
+			got := []string{}
+			for _, w := range sb.writes {
+				got = append(got, string(w))
+			}
+			if fmt.Sprint(got) != fmt.Sprint(want) {
+				add("C07/fields", "after a logging call of logger A (context request=A user=alice) was aborted by a panic in %s and recovered, logger B wrote %q, want %q", []string{"a field marshaler", "a field marshaler (tee)", "its first sink", "its second sink"}[variant], got, want)
+			}
+			if len(sa1.writes) != na1 || len(sa2.writes) != na2 {
+				extra := ""
+				for _, w := range append(append([][]byte{}, sa1.writes[na1:]...), sa2.writes[na2:]...) {
+					extra += string(w) + " "
+				}
+				add("C07/fields", "after a logging call of logger A was aborted by a panic (variant %d) and recovered, logger B's entries also reached logger A's sinks: %s", variant, extra)
+			}
+		}
+	}
+	return finds
 }
